@@ -116,10 +116,10 @@ def main():
                     need_plain = False
                     rec['status'] = 'survived'; rec['ran'] = []
                     for c in CHECKS[f]:
-                        if c in ('C14', 'C19') and 'VERIF_REAL_BIN' not in env:
+                        if c in ('C14', 'C19', 'C01', 'C15') and 'VERIF_REAL_BIN' not in env:
                             sh(f'cd {A}/repo && CARGO_TARGET_DIR={A}/target-repo cargo build --release --offline', env={k: v for k, v in env.items() if k != 'RUSTFLAGS'})
                             env['VERIF_REAL_BIN'] = A + '/target-repo/release/rustybait'
-                        elif c in ('C14', 'C19'):
+                        elif c in ('C14', 'C19', 'C01', 'C15'):
                             sh(f'cd {A}/repo && CARGO_TARGET_DIR={A}/target-repo cargo build --release --offline', env={k: v for k, v in env.items() if k != 'RUSTFLAGS'})
                         if c in ('C13', 'C17', 'C08', 'C15') and not need_plain:
                             rc, o = build('plain'); need_plain = True
